@@ -540,7 +540,7 @@ def classify_cc(d: dict, cfg: dict, mode: dict, names: dict, cache: dict, outdir
             if n in m.group(1) and m.group(1) != n:
                 return {"cause": "name|member-declared-and-used-under-different-stropped-names", "detail": m.group(1).replace(n, "<name>"), "scope": ()}
     if target == "cpp" and re.search(r"'size_t' (does not name a type|has not been declared)", msg) and re.search(r"\bsize_t index\(\) const|template<size_t I\b", line):
-        return {"cause": "unqualified-size_t", "detail": "", "scope": ("omit",), "neutralise": [("-include", "cstddef")]}
+        return {"cause": "unqualified-size_t", "detail": "", "scope": (), "neutralise": [("-include", "cstddef")]}
     # an identifier of the universe at the error location.  The signatures are deliberately coarse (one per target and kind of
     # name, the identifier itself goes into the description): which identifier of a family a run happens to draw, and in
     # which position, must not change the signature.
@@ -566,7 +566,7 @@ def classify_cc(d: dict, cfg: dict, mode: dict, names: dict, cache: dict, outdir
     if m:
         x = m.group(1) or m.group(2)
         if target == "cpp" and x in ("size_t", "ptrdiff_t"):
-            return {"cause": "unqualified-" + x, "detail": "", "scope": ("omit",), "neutralise": [("-include", "cstddef")]}
+            return {"cause": "unqualified-" + x, "detail": "", "scope": (), "neutralise": [("-include", "cstddef")]}
         if target == "c":
             for pat, hdr in _C_DECL_HEADER:
                 if pat.search(x):
@@ -1294,10 +1294,15 @@ def account(ctx: core.Ctx, o: dict, origin: str, agg: dict):
             classes += ["multi_root"] if len(u["roots"]) > 1 else []
             classes += [f"u.{x}" for x in facts["features"] if x.startswith("kind.") or x in ("deprecated", "port_id", "multi_version", "empty_intermediate_ns", "delimited")]
             first = next(iter(dsdlgen.files_of(u).items()))
+            # one sample per universe (a different configuration each time) so that the few kept samples are spread
+            want_sample = agg.setdefault("_sampled", 0) % len(o["results"]) == list(o["results"]).index(key) and o["uhash"] not in agg.setdefault("_sampled_u", set())
+            if want_sample and nontrivial:
+                agg["_sampled_u"].add(o["uhash"])
+                agg["_sampled"] += 1
             ctx.case(
                 (o["uhash"], key, mode),
                 nontrivial=nontrivial,
-                sample={"universe": o["uhash"], "origin": origin, "roots": [r["name"] for r in u["roots"]], "types": facts["n_types"], "config": key, "mode": mode, "first_file": {first[0]: first[1][:300]}},
+                sample={"universe": o["uhash"], "origin": origin, "roots": [r["name"] for r in u["roots"]][:4], "types": facts["n_types"], "config": key, "mode": mode, "first_file": {first[0]: first[1][:300]}} if want_sample else None,
                 classes=classes,
             )
         for k, v in res["counters"].items():
@@ -1376,29 +1381,38 @@ def run(ctx: core.Ctx):
         work.close()
     import resource
 
+    agg.pop("_sampled", None)
+    agg.pop("_sampled_u", None)
     ru = resource.getrusage(resource.RUSAGE_CHILDREN)
     agg["cpu_seconds.children"] = int(ru.ru_utime + ru.ru_stime)
     ctx.extra["counters"] = dict(sorted(agg.items()))
     ctx.extra["universes"] = {"directed": len(DIRECTED), "random": len(randoms), "rejected_by_front_end": rejected}
     ctx.extra["flags"] = {"c": cflags, "cxx": cxxflags}
-    # generator completeness
-    q = ctx.quick
+    # generator completeness (cases = universe x configuration x mode: 16 per universe)
+    k = 1 if ctx.quick else 8
     for c in ("cfg.c.as-c11", "cfg.c.in-c++14-tu", "cfg.cpp.as-c++14", "cfg.cpp.as-c++17", "cfg.cpp.as-c++20", "cfg.cpp.as-c++17-pmr", "cfg.cpp.generate-only", "cfg.py.import"):
-        ctx.require(c, 30 if q else 400)
-    for c in ("cfg.c.omit", "cfg.c.ser", "cfg.cpp.omit", "cfg.cpp.ser", "cfg.py.omit", "cfg.py.ser"):
-        ctx.require(c, 15 if q else 200)
+        ctx.require(c, 20 * k)
+    for c in ("cfg.c.omit", "cfg.c.ser", "cfg.cpp.omit", "cfg.cpp.ser"):
+        ctx.require(c, 20 * k)
+    for c in ("cfg.py.omit", "cfg.py.ser"):
+        ctx.require(c, 10 * k)
     for c in ("names.c_kw", "names.cpp_kw", "names.py_kw", "names.pattern", "names.internal"):
-        ctx.require(c, 60 if q else 1000)
-    ctx.require("names.macro", 15)
-    ctx.require("multi_root", 60 if q else 1000)
-    ctx.require("cross_root", 30 if q else 500)
-    ctx.require("extreme_const", 15 if q else 100)
-    ctx.require("empty_type", 30 if q else 500)
-    ctx.require("wide_type", 30 if q else 300)
-    ctx.require("u.kind.service", 30 if q else 500)
-    ctx.require("u.deprecated", 30 if q else 500)
-    ctx.require("layout.shared", 30)
-    ctx.require("layout.per-root", 30)
+        ctx.require(c, 80 * k)
+    ctx.require("names.macro", 16)
+    for c in ("strop.c", "strop.cpp", "strop.py"):
+        ctx.require(c, 20 * k)
+    ctx.require("multi_root", 32 * k)
+    ctx.require("cross_root", 16 * k)
+    ctx.require("extreme_const", 32 * k)
+    ctx.require("empty_type", 32 * k)
+    ctx.require("wide_type", 32 * k)
+    ctx.require("u.kind.service", 48 * k)
+    ctx.require("u.kind.union", 48 * k)
+    ctx.require("u.deprecated", 48 * k)
+    ctx.require("layout.shared", 32)
+    ctx.require("layout.per-root", 32)
+    for origin in DIRECTED:
+        ctx.require(f"origin.{origin}", 2)
 
 
 def replay(ctx: core.Ctx, case):
